@@ -636,6 +636,39 @@ def allwild_family(g):
     return doc, prefix + tail
 
 
+def rec_filter_family(g):
+    """`..` followed by a filter whose query is true of members that LACK something (a negated existence test, != against a
+    literal, or such a test beside others under || / &&): scalars and scalar-only containers pass it, so every container in
+    pre-order matters, also the ones met after results exist; under a multi-valued prefix or at the root"""
+    r = g.r
+
+    def leaf():
+        return r.choice([('n', 1.0), ('n', 2.0), ('n', 5.0), ('s', b'x'), ('z',), ('b', True)])
+
+    def cont(d):
+        k = r.random()
+        if d == 0 or k < 0.3:
+            n = r.choice([1, 2, 2, 3])
+            return ('a', [leaf() for _ in range(n)]) if r.random() < 0.6 else ('o', [(kk, leaf()) for kk in r.sample([b'a', b'b', b'c'], min(n, 3))])
+        n = r.choice([1, 2, 2, 3])
+        if r.random() < 0.5:
+            return ('a', [cont(d - 1) if r.random() < 0.6 else leaf() for _ in range(n)])
+        return ('o', [(kk, cont(d - 1) if r.random() < 0.6 else leaf()) for kk in r.sample([b'a', b'b', b'c', b'd'], n)])
+    doc = cont(r.choice([1, 2, 2, 3]))
+    key = r.choice([b'a', b'b', b'c'])
+    cur_k = ('cur', [('name', key, 'dot')])
+    cur_i = ('cur', [('union', [('idx', 0)])])
+    neg = r.choice([('not', cur_k), ('not', cur_k), ('not', cur_i), ('cmp', '!=', cur_k, ('lit', ('n', 1.0))), ('cmp', '!=', cur_k, ('lit', ('s', b'x')))])
+    other = r.choice([('exists', ('cur', [('name', r.choice([b'a', b'b']), 'dot')])), ('cmp', '>', ('cur', [('name', b'b', 'dot')]), ('lit', ('n', 1.0))),
+                      ('cmp', '==', ('cur', [('name', b'c', 'dot')]), ('lit', ('n', 2.0)))])
+    k = r.random()
+    e = neg if k < 0.5 else (('or', neg, other) if k < 0.75 else (('or', other, neg) if k < 0.9 else ('and', neg, ('not', ('cur', [('name', b'zz9', 'dot')])))))
+    flt = ('rec', ('filter', e))
+    prefix = r.choice([[], [], [('wild', 'br')], [('wild', 'dot')], [('name', r.choice([b'a', b'b']), 'dot')], [('wild', 'br'), ('wild', 'br')]])
+    tail = r.choice([[], [], [], [('wild', 'br')], [('name', b'a', 'dot')]])
+    return doc, prefix + [flt] + tail
+
+
 def jnum_order_family(g):
     """json.Number members, some of them outside the float64 range, next to ordinary numbers, under ordering and
     equality filters: the numeric conversion of one member must not disturb its siblings"""
